@@ -12,9 +12,9 @@ import (
 
 func init() {
 	register(&propDef{
-		id: "C19",
+		id:      "C19",
 		explain: "Structural necessary conditions of 'a request is transmitted at most MaxIdemponentCallAttempts times, only when the retry policy allows, never when it carries a body stream': in HostClient.Do's retry loop, on every path from one transmission attempt to the next the code has passed (a) the exit for requests with a body stream, tested on a value computed before the first transmission (Request.Write consumes the stream, so a test made after an attempt sees nothing), (b) the attempt counter increment and the exit when it reaches the limit, where the limit is the configured value or the default when that is not positive, (c) the retry decision of the configured callback or the idempotency predicate with an exit when it says no, and (d) when a timeout is set, the deadline test; a failed attempt whose error is nil or whose retry flag is false ends the loop. isIdempotent depends only on IsGet / IsHead / IsPut. In the transport: the return that follows a failed connection acquisition and the one for ErrBodyTooLarge carry retry = false. Not decided: counting transmissions in executions, server behaviour.",
-		run: runC19,
+		run:     runC19,
 	})
 }
 
